@@ -103,7 +103,7 @@ HASHABLE_ATOMS = ['object', 'int', 'bool', 'float', 'complex', 'str', 'bytes', '
                   'function', 'UA', 'UB', 'UC', 'UH', 'UImpl', 'UContainer', 'UGenPlain',
                   'EColor', 'ENum', 'type', 'ABCMeta', 'ProtocolMeta', 'range',
                   'UIterable', 'UIterator', 'USizedIterator', 'UReversible', 'list_iterator', 'generator',
-                  'USeq', 'UColl', 'UMap', 'dict_keys', 'dict_items', 'dict_values']
+                  'USeq', 'UColl', 'dict_values']
 HASHABLE_DEEP = ['tuple', 'frozenset']
 NEEDS_HASHABLE_ITEMS = ['set', 'frozenset', 'dict', 'defaultdict', 'OrderedDict', 'Counter',
                         'ChainMap', 'dict_keys', 'USet', 'UMap']
@@ -144,6 +144,23 @@ def build(spec):
     return obj
 
 
+def _hashable_obj(o):
+    try:
+        hash(o)
+        return True
+    except TypeError:
+        return False
+
+
+def _safe_build(spec):
+    """Sub-objects the encoding never looked at (attribute values beyond the registered depth)
+    may come out of the model malformed: fall back to a harmless scalar."""
+    try:
+        return build(spec)
+    except Exception:
+        return 0
+
+
 def _build(spec):
     c = spec['c']
     k = KIND[c]
@@ -181,11 +198,11 @@ def _build(spec):
         if c == 'frozenset':
             return frozenset(items)
         if c == 'dict_keys':
-            return dict.fromkeys(items).keys()
+            return dict.fromkeys(i for i in items if _hashable_obj(i)).keys()
         if c == 'dict_values':
             return dict(enumerate(items)).values()
         if c == 'dict_items':
-            return dict(items).items()
+            return dict(i for i in items if isinstance(i, tuple) and len(i) == 2 and _hashable_obj(i[0])).items()
         if c == 'list_iterator':
             return iter(items)
         if c == 'generator':
@@ -212,11 +229,11 @@ def _build(spec):
     if c == 'function':
         return uc.ufunc
     if c == 'UH':
-        return uc.UH(**{a: build(v) for a, v in spec.get('attrs', {}).items()})
+        return uc.UH(**{a: _safe_build(v) for a, v in spec.get('attrs', {}).items()})
     if c in ('UA', 'UB'):
         o = PYCLS[c]()
         if 'attrs' in spec and 'n' in spec['attrs']:
-            o.n = build(spec['attrs']['n'])
+            o.n = _safe_build(spec['attrs']['n'])
         return o
     return PYCLS[c]()
 
